@@ -5,6 +5,7 @@ import FeatModel.Lemmas.C01Cscr
 import FeatModel.Lemmas.C01Bcsr
 import FeatModel.Lemmas.C01Sizes
 import FeatModel.Lemmas.C01Meta
+import FeatModel.Lemmas.C01Round
 import FeatModel.Model.LA.Cscr
 import Mathlib.Algebra.Order.Field.Rat
 import Mathlib.Algebra.Order.Ring.Abs
@@ -705,6 +706,78 @@ theorem C01.metamat_apply_eq (M : MetaMat Rat) (hM : M.wf = true) (tr : Bool) (a
   · simp only [if_true] at hr hy hx ⊢
     obtain ⟨r', e1, e2, e3⟩ := ok.2 ax x y r ali hax hr hy hx hry
     exact ⟨r', e1, e2, fun i hi => by rw [e3 i hi]; cases ax <;> simp [baseOf, MetaMat.dot]⟩
+
+/-- Meta-matrices, the `|alpha| < eps` branch (this includes `alpha = 0`): every leaf takes its early-out, so every
+    `apply(r, x, y, alpha)` / `apply_transposed(r, x, y, alpha)` of every nesting returns `y` itself; as for the leaves
+    (`csr_applyAxpyQ_tiny`) this differs from the exact `y + alpha·M x` by at most `eps·(|M||x|)_i`. -/
+theorem C01.metamat_tiny_alpha (M : MetaMat Rat) (hM : M.wf = true) (tr : Bool) (al : Rat) (hal : |al| < epsQ)
+    (x y r : Array Rat) (ali : Bool)
+    (hr : r.size = if tr then M.cols else M.rows) (hy : y.size = if tr then M.cols else M.rows)
+    (hx : x.size = if tr then M.rows else M.cols) (hry : ali = true → r = y) :
+    M.goQ tr (some al) x y r ali = some y := by
+  have leaf_csr : ∀ A : Csr Rat, (MetaMat.csr A).TinyOk := by
+    intro A
+    constructor
+    · intro al x y r ali h1 h2 h3 h4 h5
+      exact C01.csr_axpy_tiny_alpha (tinyRat epsQ) A x y r al ((C01.tinyRat_iff _ _).mpr h1) ali false
+        (by simpa [MetaMat.rows, MetaMat.cols] using h2) (by simpa [MetaMat.rows, MetaMat.cols] using h3)
+        (by simpa [MetaMat.rows, MetaMat.cols] using h4) h5
+    · intro al x y r ali h1 h2 h3 h4 h5
+      exact C01.csr_axpy_tiny_alpha (tinyRat epsQ) A x y r al ((C01.tinyRat_iff _ _).mpr h1) ali true
+        (by simpa [MetaMat.rows, MetaMat.cols] using h2) (by simpa [MetaMat.rows, MetaMat.cols] using h3)
+        (by simpa [MetaMat.rows, MetaMat.cols] using h4) h5
+  have leaf_bcsr : ∀ A : Bcsr Rat, (MetaMat.bcsr A).TinyOk := by
+    intro A
+    constructor
+    · intro al x y r ali h1 h2 h3 h4 h5
+      have ht := (C01.tinyRat_iff epsQ al).mpr h1
+      have hyy : (if ali then r else y) = y := by cases ali; rfl; exact h5 rfl
+      simp only [MetaMat.rows, MetaMat.cols] at h2 h3 h4
+      simp [MetaMat.goQ, MetaMat.go, Bcsr.applyAxpy, h2, h3, h4, ht, hyy]
+    · intro al x y r ali h1 h2 h3 h4 h5
+      have ht := (C01.tinyRat_iff epsQ al).mpr h1
+      have hyy : (if ali then r else y) = y := by cases ali; rfl; exact h5 rfl
+      simp only [MetaMat.rows, MetaMat.cols] at h2 h3 h4
+      simp [MetaMat.goQ, MetaMat.go, Bcsr.applyAxpy, h2, h3, h4, ht, hyy]
+  have leaf_dense : ∀ A : Dense Rat, 0 < A.rows → 0 < A.cols → (MetaMat.dense A).TinyOk := by
+    intro A hr0 hc0
+    constructor
+    · intro al x y r ali h1 h2 h3 h4 h5
+      have ht := (C01.tinyRat_iff epsQ al).mpr h1
+      have hyy : (if ali then r else y) = y := by cases ali; rfl; exact h5 rfl
+      simp only [MetaMat.rows, MetaMat.cols] at h2 h3 h4
+      simp [MetaMat.goQ, MetaMat.go, Dense.applyAxpy, h2, h3, h4, ht, hyy]; omega
+    · intro al x y r ali h1 h2 h3 h4 h5
+      have ht := (C01.tinyRat_iff epsQ al).mpr h1
+      have hyy : (if ali then r else y) = y := by cases ali; rfl; exact h5 rfl
+      simp only [MetaMat.rows, MetaMat.cols] at h2 h3 h4
+      simp [MetaMat.goQ, MetaMat.go, Dense.applyAxpy, h2, h3, h4, ht, hyy]; omega
+  have ok := MetaMat.tiny_of_leaves leaf_csr leaf_bcsr leaf_dense M hM
+  cases tr
+  · exact ok.1 al x y r ali hal (by simpa using hr) (by simpa using hy) (by simpa using hx) hry
+  · exact ok.2 al x y r ali hal (by simpa using hr) (by simpa using hy) (by simpa using hx) hry
+
+/-- Tier B, the rounding clause for an abstract floating-point arithmetic `M` satisfying the standard model
+    (`fl(a∘b) = (a∘b)(1+δ)`, `|δ| ≤ u`): the dot-product recurrence `s ← fl(s + fl(a_k·b_k))` started at 0 satisfies
+    `|fl_dot − Σ a_k b_k| ≤ ((1+u)^(n+1) − 1)·Σ|a_k b_k|`  (`≤ γ_{n+1}·|a|ᵀ|b|`). -/
+theorem C01.fl_dot_error (M : FlModel) (a b : Nat → Rat) (L : List Nat) :
+    |L.foldl (fun acc k => M.add acc (M.mul (a k) (b k))) 0 - (L.map fun k => a k * b k).sum|
+      ≤ ((1 + M.u) ^ (L.length + 1) - 1) * (L.map fun k => |a k * b k|).sum := by
+  have h := fl_fold M a b L 0 0 0 M.u (le_refl _) (le_refl _) (by simp) (by simp)
+  have e : (1 + M.u) ^ L.length * (M.u + 1) - 1 = (1 + M.u) ^ (L.length + 1) - 1 := by ring
+  simpa [e] using h
+
+/-- … lifted to the CSR kernel: `Csr.rowSum` (the model function the driver runs at ℚ) instantiated at the scalar type
+    `FlNum M` *is* the floating-point row loop of `csr_generic`; its result differs from the exact row sum of the stored
+    entries by at most `((1+u)^(n_i+1) − 1)·Σ_k |val_k|·|x_{col k}|` — a bound proportional to `(|A||x|)_i`, which is the
+    property's rounding envelope (`n_i` = stored entries of row `i`). -/
+theorem C01.fl_csr_row_error (M : FlModel) (A : Csr (FlNum M)) (x : Array (FlNum M)) (i : Nat) :
+    |(A.rowSum x i).val - ((List.range' (A.rowBegin i) (A.rowEnd i - A.rowBegin i)).map
+        fun k => (A.val.getD k 0).val * (x.getD (A.colInd.getD k 0) 0).val).sum|
+      ≤ ((1 + M.u) ^ ((List.range' (A.rowBegin i) (A.rowEnd i - A.rowBegin i)).length + 1) - 1)
+          * ((List.range' (A.rowBegin i) (A.rowEnd i - A.rowBegin i)).map
+              fun k => |(A.val.getD k 0).val * (x.getD (A.colInd.getD k 0) 0).val|).sum :=
+  fl_rowSum_error M A x i
 
 /-- **`r` is overwritten, never accumulated** (plain product, every leaf format): `apply(r, x)` / `apply_transposed(r, x)`
     return the same vector whatever `r` held before (stale data, the harness pre-fills 777) — the kernels run with
